@@ -199,6 +199,7 @@ int cmd_gstrf(const case_t *c)
             mon_analyze(ev2, nev2, n, opt.etree, ff, nprocs, &st2);
             free(ff);
             takes += st2.pipelined_takes + st2.dad_takes;
+            if (cint(c, "repvalidate", 0)) { long ns2 = 0, ms2 = 0; validate_LU(&L2, &U2, perm_r, opt.perm_c, n, "C09", &ns2, &ms2); }
         }
         if (jo_nfail()) dump_on_fail(c, ev2, nev2);
         free(ev2);
